@@ -727,6 +727,19 @@ func marshalInner(pj *simdjson.ParsedJson, docs []*ref.Node) (what string) {
 				if s := cmp(out, err, want, "Elements.MarshalJSON", p); s != "" {
 					return s
 				}
+				// Elements is passed by value and MarshalJSON is a read: a second call gives the
+				// same bytes and the member iterators are still usable afterwards
+				out2, err2 := els.MarshalJSON()
+				if err2 != nil || string(out2) != string(out) {
+					return fmt.Sprintf("Elements.MarshalJSON at %s called a second time on the same Elements: %s (%v), first call gave %s", p, clip(string(out2)), err2, clip(string(out)))
+				}
+				for i := range els.Elements {
+					wk := &walker{budget: 1 << 16}
+					got, verr := wk.value(&els.Elements[i].Iter)
+					if verr != nil || got.Render() != want.Elems[i].Render() {
+						return fmt.Sprintf("member %q of the Elements at %s read after Elements.MarshalJSON: %v (%v), member is %s", els.Elements[i].Name, p, got, verr, clip(want.Elems[i].Render()))
+					}
+				}
 			}
 		}
 	}
